@@ -218,6 +218,28 @@ fn metamorphic(ctx: &mut Ctx) {
         data_dyn.insert("pnames".into(), Value::Array(seq.iter().map(|n| Value::scalar(n.clone())).collect()));
         let o_dyn = render_text(&parser, &src_tmpl(&dyn_t), &data_dyn);
         let o_lit = render_text(&parser, &src_tmpl(&lit_t), &data_dyn);
+        // STANDALONE: what a `render` with literal arguments writes is what the partial writes when it is
+        // rendered as a template of its own over exactly those arguments (nothing else is in scope)
+        if let Node::Render(_, RForm::Plain, rargs) = &call {
+            let mut own = Object::new();
+            for (k, e) in rargs {
+                if let Expr::Lit(v) = e {
+                    own.insert(k.clone().into(), v.clone());
+                }
+            }
+            if let Some((_, Ok(body))) = partials.iter().find(|(n, _)| *n == callee) {
+                let alone = render_text(&parser, &src_tmpl(body), &own);
+                let mut just_call = vec![text(OPEN), call.clone(), text(CLOSE)];
+                just_call.extend(Vec::<Node>::new());
+                let o_call = render_text(&parser, &src_tmpl(&just_call), &data);
+                if let (Obs::Ok(x), Some(y)) = (&alone, between(&o_call, OPEN, CLOSE)) {
+                    if x != y {
+                        ctx.emit(render_case("c08", "STANDALONE", &just_call, &data, &partials, &o_call));
+                        continue;
+                    }
+                }
+            }
+        }
         // NAME-SCOPE: the name expression is evaluated in the CALLER's scope — an argument keyed like the
         // name variable binds only inside the partial and cannot redirect the tag
         let other = avail[0].clone();
